@@ -112,7 +112,9 @@ static const char *P_fine = "none";
 static const char *P_oracle = "all";
 static int P_ext_stop = -1; /* >= 0: an external thread calls RootsimStop() after that many of its own scheduling points */
 static const char *P_stats;
-static int P_negative = 0; /* the model is non-terminating by design: returning is the violation */
+static int P_negative = 0;
+static long P_prompt = 0; /* > 0: at most that many forward events may be dispatched after every thread was told a GVT at which all predicates hold on committed states */
+static long events_after_all_hold; /* the model is non-terminating by design: returning is the violation */
 
 enum {
 	C_ROLLBACK, C_STRAGGLER, C_ANTI_LOCAL, C_ANTI_BEFORE_PROC, C_ANTI_AFTER_PROC, C_SILENT, C_FOSSIL_RELEASE, C_GVT_ROUNDS,
@@ -122,6 +124,7 @@ enum {
 
 /* ------------------------------------------------------------------ monitor state */
 #define MAXTH 24
+#define MAXTH_DECL 24
 #define MAXMSG 8192
 #define MAXGV 4096
 struct mrec {
@@ -149,6 +152,7 @@ static uint64_t fini_digest[VM_MAXLP];
 static int left_loop[MAXTH];
 static int run_returned;
 static int max_gvt_twice;
+static int all_hold_told[MAXTH];
 /* statistics shadow */
 static uint64_t st_shadow[MAXTH][STATS_COUNT];
 #define MAXREC 4096
@@ -231,6 +235,14 @@ static void h_dispatch(lp_id_t me, simtime_t now, unsigned type, const void *pl,
 			    (unsigned long long)me, now, type, (unsigned long long)d, (unsigned long long)r->h_after);
 	} else {
 		rs_count(C_EVENTS, 1);
+		if(P_prompt) {
+			int all = 1;
+			for(unsigned o = 0; o < global_config.n_threads; ++o)
+				all &= all_hold_told[rs_rank() * 8 + (int)o];
+			if(all && ++events_after_all_hold > P_prompt)
+				rs_fail("C08 the run goes on although every LP's predicate holds on a committed state: %ld forward events dispatched "
+					"after every worker was told a GVT beyond %g", events_after_all_hold, REF.t_all_hold);
+		}
 		r->h_after = d;
 		r->has_h = 1;
 		r->t = now;
@@ -259,6 +271,8 @@ static void tell_gvt(int th, double g)
 			    fmpi_min_in_flight_time());
 	}
 	rs_logf("[t%d gvt#%u=%g] ", th, k, g);
+	if(P_prompt && REF.all_pred_hold && g > REF.t_all_hold)
+		all_hold_told[th] = 1;
 	gvt_seq[th][k] = g;
 	gvt_n[th] = k + 1;
 	gvt_last[th] = g;
@@ -1013,6 +1027,7 @@ static void configure(int argc, char **argv)
 	P_ext_stop = (int)rs_param_int("xstop", -1);
 	P_stats = rs_param("stats", NULL);
 	P_negative = (int)rs_param_int("neg", 0);
+	P_prompt = rs_param_int("prompt", 0);
 }
 
 static const struct rs_harness H = {
